@@ -99,16 +99,24 @@ def third_party_isolation_rules(fb, ctx):
     # authorizer side: a third-party block is resolved against its own table
     lb = fb.body("biscuit_auth::token::builder::authorizer::load_and_translate_block")
     lh = fb.hir_of(lb)
-    lets = [s for s in find_all(lh["body"], lambda n: n.get("k") == "let" and n["pat"].get("name") == "block_symbols")]
+    # the table a block is resolved against: the `let` initialised by an `if` over block.external_key (whatever it is called)
+    lets = [s for s in find_all(lh["body"], lambda n: n.get("k") == "let" and n.get("init") is not None and strip(n["init"]).get("k") == "if" and find_all(strip(n["init"])["cond"], lambda z: z.get("k") == "field" and z.get("name") == "external_key"))]
+    p_token_symbols = hirq.param_ids(lh, 2)
     ok = False
     if lets:
         e = strip(lets[0]["init"])
         if e.get("k") == "if":
             c = strip(e["cond"])
             cond_ok = c.get("k") == "binary" and c.get("op") == "Or" and bool(mcalls(c, r"Option::<T>::is_none$")) and bool(find_all(c, lambda z: z.get("k") == "field" and z.get("name") == "external_key")) and any(hirq.literal(x) == 0 for x in find_all(c, lambda z: z.get("k") == "lit"))
-            then_ok = bool(find_all(e["then"], lambda z: is_local(z, "token_symbols")))
+            then_ok = bool(find_all(e["then"], lambda z: hirq.is_lid(z, p_token_symbols)))
             else_ok = bool(find_all(e["else"], lambda z: z.get("k") == "field" and z.get("name") == "symbols"))
             ok = cond_ok and then_ok and else_ok
+    # .. and that choice is the only way the token's table is read: a direct use of the `token_symbols` parameter anywhere else
+    # resolves part of a third-party block (its scopes, a rule, a check) against the carrier token's table
+    if lets:
+        inside = {id(z) for z in find_all(lets[0]["init"], lambda z: hirq.is_lid(z, p_token_symbols))}
+        stray = [z for z in find_all(lh["body"], lambda z: hirq.is_lid(z, p_token_symbols)) if id(z) not in inside]
+        ctx.check(not stray, "ISOLATE", "load_and_translate_block reads the token's table only to choose the block's table", "ISOLATE|load_and_translate_block|single-use", f"the token-level symbol table is used directly at line(s) {sorted({z['ln'] for z in stray})}: that part of a third-party block is resolved against the carrier token's symbols / public keys instead of the block's own", f"{lb['file']}:{stray[0]['ln'] if stray else lb['line']}")
     ctx.check(ok, "ISOLATE", "authorizer resolves a third-party block against block.symbols", "ISOLATE|load_and_translate_block", "`let block_symbols = if i == 0 || block.external_key.is_none() { token_symbols } else { block.symbols }` not found", f"{lb['file']}:{lb['line']}")
     # third-party signer builds against a fresh table
     cb = fb.body("biscuit_auth::token::third_party::ThirdPartyRequest::create_block")
@@ -123,7 +131,7 @@ def print_table_rules(fb, ctx):
         h = fb.hir_of(b)
         short = "::".join(fn.split("::")[-2:])
         ifs = [n for n in find_all(h["body"], lambda n: n.get("k") == "if") if mcalls(n["cond"], r"Option::<T>::is_some$") and find_all(n["cond"], lambda z: z.get("k") == "field" and z.get("name") == "external_key")]
-        ok = len(ifs) == 1 and bool(find_all(ifs[0]["then"], lambda z: z.get("k") == "field" and z.get("name") == "symbols" and is_local(strip(z["e"]), "block"))) and bool(find_all(ifs[0]["else"], lambda z: z.get("k") == "field" and z.get("name") == "symbols" and is_local(strip(z["e"]), "self")))
+        ok = len(ifs) == 1 and bool(find_all(ifs[0]["then"], lambda z: z.get("k") == "field" and z.get("name") == "symbols" and re.search(r"token::block::Block$", z.get("ety") or ""))) and bool(find_all(ifs[0]["else"], lambda z: z.get("k") == "field" and z.get("name") == "symbols" and is_local(strip(z["e"]), "self")))
         ctx.check(ok, "PRINT", f"{short}: third-party blocks print with their own table, others with the token table", f"PRINT|{short}", "`if block.external_key.is_some() { &block.symbols } else { &self.symbols }` not found", f"{b['file']}:{b['line']}")
 
 
